@@ -396,7 +396,7 @@ def explore_predicate(mod, name, summ_factory, setup):
 
 
 def check_isone(rep, mod, cfg):
-    names = mod.find_re(r'^Goldilocks3::isOne\(')
+    names = harness.family(mod, r'^Goldilocks3::isOne\(')
     for name in names:
         dem = mod.dem[name]
         site = site_of(mod, name)
@@ -509,7 +509,7 @@ def ext_summaries(mod):
 
 
 def check_batch_inverse(rep, mod, cfg, sizes):
-    names = mod.find_re(r'^Goldilocks3::batchInverse\(')
+    names = harness.family(mod, r'^Goldilocks3::batchInverse\(')
     rep.floor('batchInverse[%s]' % cfg, len(names), 1)
     for name in names:
         dem = mod.dem[name]
@@ -560,7 +560,7 @@ def run(rep, tier, seed):
         rep.floor('ring operations[%s]' % cfg, len(ring), 17)
         for n in ring:
             check_ring(rep, mod, cfg, n)
-        invs = mod.find_re(r'^Goldilocks3::inv\(')
+        invs = harness.family(mod, r'^Goldilocks3::inv\(')
         rep.floor('inv[%s]' % cfg, len(invs), 2)
         for n in invs:
             check_inv(rep, mod, cfg, n)
